@@ -20,7 +20,13 @@ Open Scope nat_scope.
    replace_values (NOT modelled as a second resolution: it is the identity unless an alias is named like a variable, by
    C18_resolve_idempotent / C18_resolve_not_alias; that class is the kept finding, where K is silent for such histories and only the
    twin oracle speaks).  ORACLE ONLY (no theorem): "generated solution code sees the same data" (a solve() of an equation written
-   through aliases is compared with the twin's); copy() (the model has no identity of objects; reindex has theorems). *)
+   through aliases is compared with the twin's); copy() (the model has no identity of objects; reindex has theorems).
+   KEPT FINDINGS (the constructor refuses alias names that clash with a variable or an attribute, fix 4e03fd0; what it cannot see):
+   add_variable / add_attribute of an alias name AFTER construction (C18_add_variable_alias_name_refuted,
+   C18_add_attribute_alias_name_refuted; oracle signature add_variable-or-add_attribute|alias-name-accepted) and an alias named like a
+   constructor keyword that is no attribute, default_value (C18_alias_named_like_keyword_refuted; oracle signature
+   __init__|alias-named-like-constructor-keyword, K silent).  C18_alias_no_extra_storage speaks of `vars` / `index` and excludes
+   AddVariable of an alias name: it is silent about an ATTRIBUTE stored under an alias name (the second witness). *)
 (* ---------------------------------------------------------------- __init__: chains of aliases *)
 (* follow n a x = the name reached from x after n look-ups a.get(., .).  Acyclic declaration (self-maps apart, every
    chain leaves the alias names): accepted; the stored map keeps exactly the non-trivial aliases, is unchained, and sends
@@ -422,6 +428,21 @@ Theorem C18_add_attribute_alias_name_refuted :
      alias_getitem am (KName "X") s2 <> alias_getitem am (KName "X") s1).
 Proof. exact add_attribute_alias_name_refuted. Qed.
 
+(* kept finding, same family: an alias named like a constructor keyword that is no attribute of the object (default_value) passes
+   the clash check; keyword_call = Python's keyword binding after AliasMixin.__init__ renamed the keywords: M(span, default_value=5)
+   becomes M(span, X=5) - X is 5, Y keeps 0.0, where the class without that alias fills both with 5.  (Oracle clause
+   __init__|alias-named-like-constructor-keyword; K is silent for such ALIASES.) *)
+Theorem C18_alias_named_like_keyword_refuted :
+  exists am,
+    amap am = [("default_value", "X")] /\
+    (let r := keyword_call [] am CModel [10; 11; 12]%Z false RFloat ["X"; "Y"] [("default_value", OScalar (PInt 5))] in
+     let r0 := keyword_call [] (mkAobj [] []) CModel [10; 11; 12]%Z false RFloat ["X"; "Y"] [("default_value", OScalar (PInt 5))] in
+     snd r = Ret tt /\ snd r0 = Ret tt /\
+     getitem (KName "X") (fst r) = Ret [PFlt (FHalf 10); PFlt (FHalf 10); PFlt (FHalf 10)]%Z /\
+     getitem (KName "Y") (fst r) = Ret [PFlt (FHalf 0); PFlt (FHalf 0); PFlt (FHalf 0)]%Z /\
+     getitem (KName "Y") (fst r0) = Ret [PFlt (FHalf 10); PFlt (FHalf 10); PFlt (FHalf 10)]%Z).
+Proof. exact alias_named_like_keyword_refuted. Qed.
+
 Print Assumptions C18_shorten_acyclic.
 Print Assumptions C18_shorten_cyclic.
 Print Assumptions C18_shorten_raises_iff.
@@ -472,6 +493,7 @@ Print Assumptions C18_alias_named_like_attribute_rejected.
 Print Assumptions C18_export_only_renames_constructed.
 Print Assumptions C18_add_variable_alias_name_refuted.
 Print Assumptions C18_add_attribute_alias_name_refuted.
+Print Assumptions C18_alias_named_like_keyword_refuted.
 Print Assumptions clashing_aliases_rejected.
 Print Assumptions C18_export_total.
 Print Assumptions C18_export_rename_only.
